@@ -61,3 +61,25 @@ def check(ctx: Ctx) -> None:
                                   TG, f"frame: {sc!r} children call",
                                   f"an inline tag renders its children with add_ws={t[3]}: the first child would be put on a new line / indented{extra}")
     ctx.count("frame paths examined", nf)
+
+
+def thorough(ctx: Ctx) -> None:
+    """Composed model on all abstract trees (including block-inside-inline): a block-free subtree renders with no layout token."""
+    from ..compose import Composer, enumerate_trees, has_block
+    m = model(ctx)
+    comp = Composer(m)
+    n = bad = 0
+    for kind, t in enumerate_trees(3, c06_only=False):
+        if kind != "tag" or has_block(t):
+            continue
+        for indent, eol_on in ((0, True), (3, True)):
+            n += 1
+            toks = comp.render_tag(t, indent, eol_on, True)
+            body = toks[1:] if toks and toks[0][0] == "IND" else toks
+            if any(x[0] in ("IND", "EOL") for x in body):
+                bad += 1
+                if bad <= 3:
+                    ctx.fail("C05.compose", TG, f"composed rendering of the block-free subtree {t!r}", f"layout tokens inside inline content: {toks}")
+    ctx.count("block-free composed subtrees", n)
+    if not bad:
+        ctx.ok("C05.compose", f"{n} block-free composed subtrees render as the plain concatenation of tags and content")
